@@ -20,46 +20,8 @@ def run(ctx):
     ctx.not_decided += ["equality of packet sequences for all read chunkings"]
 
     # ---- R1 --------------------------------------------------------------------------------
-    r1 = ctx.rule("C20.R1", "in read_block_stream every Read::read that fills the block buffer sits in a loop that continues "
-                            "until the buffer is full or a read returns 0 (read_exact / read_to_end / take are accepted)", "loop rule")
-    f = prog.fn(BE + "::read_block_stream")
-    ctx.analysed(f.path)
-    ls = natural_loops(f.body)
-    inloop = set()
-    for h, blocks, srcs in ls:
-        inloop |= set(blocks)
-    reads = call_sites(f, lambda p, c: re.search(r"io::Read::read$", p) is not None or (c.get("trait") == "std::io::Read" and c.get("name") == "read"))
-    full = call_sites(f, lambda p, c: c.get("trait") == "std::io::Read" and c.get("name") in ("read_exact", "read_to_end", "read_buf_exact"))
-    if not reads and not full:
-        raise model.AnchorMissing("read_block_stream performs no Read call")
-    flow = Flow(f.body)
-    for s in reads:
-        key = "read_block_stream Read::read"
-        if s.bb in inloop:
-            # the loop must be exited on a zero-length read or on a full buffer
-            ok = False
-            for h, blocks, srcs in ls:
-                if s.bb not in blocks:
-                    continue
-                for b in blocks:
-                    t = f.body.blocks[b].term
-                    if t.k == "switch":
-                        for k in range(len(t.targets) + 1):
-                            tgt = t.targets[k][1] if k < len(t.targets) else t.otherwise
-                            if tgt not in blocks:
-                                for (a, tr) in flow.edge_facts(("e", b, k)):
-                                    if a[0] in ("eq", "lt", "le"):
-                                        ok = True
-            if ok:
-                r1.ok(key, "inside a fill loop", s.loc)
-            else:
-                r1.violation(key, "read() is in a loop whose exit does not test the byte count", s.loc)
-        else:
-            r1.violation(key, "a single read() fills the block buffer: a short read (pipes, sockets, chunked readers) yields a short "
-                              "block, so packets depend on how the stream chunks its data", s.loc)
-    for s in full:
-        r1.ok("read_block_stream %s" % s.term.callee().get("name"), "", s.loc)
-    r1.floor(1, "stream reads")
+    r1 = ctx.rule("C20.R1", R1_TEXT, "loop rule")
+    stream_fill_rule(ctx, r1)
 
     # ---- R2 --------------------------------------------------------------------------------
     r2 = ctx.rule("C20.R2", "BlockEncoder::new seeks a Stream source to Start(0) on every path to Ok; SenderSession::get_next "
@@ -216,3 +178,74 @@ def run(ctx):
     else:
         r4.violation("ObjectDataSource::len restores the position", "seek(End(0)) / seek(Start(current_pos)) pair not found", loc(ln.sp))
     r4.floor(3, "length facts")
+
+
+R1_TEXT = ("in read_block_stream every Read::read that fills the block buffer sits in a loop that continues until the buffer is full or a "
+           "read returns 0, and retries on ErrorKind::Interrupted (read_exact / read_to_end / take are accepted)")
+
+
+def stream_fill_rule(ctx, r1):
+    prog = ctx.prog
+    f = prog.fn(BE + "::read_block_stream")
+    ctx.analysed(f.path)
+    ls = natural_loops(f.body)
+    inloop = set()
+    for h, blocks, srcs in ls:
+        inloop |= set(blocks)
+    reads = call_sites(f, lambda p, c: re.search(r"io::Read::read$", p) is not None or (c.get("trait") == "std::io::Read" and c.get("name") == "read"))
+    full = call_sites(f, lambda p, c: c.get("trait") == "std::io::Read" and c.get("name") in ("read_exact", "read_to_end", "read_buf_exact"))
+    if not reads and not full:
+        raise model.AnchorMissing("read_block_stream performs no Read call")
+    flow = Flow(f.body)
+    for s in reads:
+        key = "read_block_stream Read::read"
+        if s.bb in inloop:
+            # the loop must be exited on a zero-length read or on a full buffer
+            ok = False
+            for h, blocks, srcs in ls:
+                if s.bb not in blocks:
+                    continue
+                for b in blocks:
+                    t = f.body.blocks[b].term
+                    if t.k == "switch":
+                        for k in range(len(t.targets) + 1):
+                            tgt = t.targets[k][1] if k < len(t.targets) else t.otherwise
+                            if tgt not in blocks:
+                                for (a, tr) in flow.edge_facts(("e", b, k)):
+                                    if a[0] in ("eq", "lt", "le"):
+                                        ok = True
+            if ok:
+                r1.ok(key, "inside a fill loop", s.loc)
+            else:
+                r1.violation(key, "read() is in a loop whose exit does not test the byte count", s.loc)
+        else:
+            r1.violation(key, "a single read() fills the block buffer: a short read (pipes, sockets, chunked readers) yields a short "
+                              "block, so packets depend on how the stream chunks its data", s.loc)
+    # a transient ErrorKind::Interrupted must retry (the read_exact idiom), not end the transfer
+    for s in reads:
+        if s.bb not in inloop:
+            continue
+        retry = False
+        for h, blocks, srcs in ls:
+            if s.bb not in blocks:
+                continue
+            for b in blocks:
+                t = f.body.blocks[b].term
+                if t.k == "switch":
+                    for k in range(len(t.targets) + 1):
+                        tgt = t.targets[k][1] if k < len(t.targets) else t.otherwise
+                        for (a, tr) in flow.edge_facts(("e", b, k)):
+                            if a[0] == "eq" and tr and "Interrupted" in show(a[1]) + show(a[2]) and "kind" in show(a[1]) + show(a[2]) and tgt in blocks:
+                                # and from there the loop is re-entered without setting read_end
+                                retry = True
+        key = "read_block_stream retries on ErrorKind::Interrupted"
+        if retry:
+            r1.ok(key, "", s.loc)
+        else:
+            r1.violation(key, "a read() interrupted by a signal (ErrorKind::Interrupted) ends the block / the transfer instead of being retried: "
+                              "the packets then depend on how the stream behaves, not on its bytes", s.loc)
+    for s in full:
+        r1.ok("read_block_stream %s" % s.term.callee().get("name"), "", s.loc)
+    r1.floor(1, "stream reads")
+
+
